@@ -563,6 +563,28 @@ class Check(Property):
                                          f"the registry built from them answers {got}{'' if ok_t else ' (numeric type lost)'}")
         except Exception as exc:  # noqa: BLE001
             v.append(f"C10 shared-cache probe raised {type(exc).__name__}: {exc}")
+        # a file that @imports another one, loaded through a cache folder: after the IMPORTED file is edited (the importing file
+        # unchanged) a new registry means what the files say now
+        try:
+            with tempfile.TemporaryDirectory(prefix="c10_imp_") as d:
+                cf = os.path.join(d, "cache")
+                main, inc = os.path.join(d, "main.txt"), os.path.join(d, "inc.txt")
+                open(main, "w").write("foo = [length]\nbaz = [time]\n@import inc.txt\nquux = 2 bar\n")
+                for T in (float, Fraction):
+                    for body, want in (("bar = 2 foo\n", (4, "foo")), ("bar = 3 baz\n", (6, "baz")), ("bar = 5 foo\n", (10, "foo"))):
+                        open(inc, "w").write(body)
+                        for rnd in ("cold", "warm"):
+                            try:
+                                u = pint.UnitRegistry(main, cache_folder=cf, non_int_type=T)
+                                f, ru = u.get_root_units("quux")
+                                got = (Fraction(f).limit_denominator(1000), str(ru))
+                            except Exception as exc:  # noqa: BLE001
+                                got = type(exc).__name__
+                            if got != want:
+                                v.append(f"C10 cache folder + @import ({rnd}, {T.__name__}): the imported file now says {body.strip()!r} so quux = "
+                                         f"{want[0]} {want[1]}, the registry answers {got}")
+        except Exception as exc:  # noqa: BLE001
+            v.append(f"C10 import-cache probe raised {type(exc).__name__}: {exc}")
         return v[:6]
 
     def oracle(self, c):
